@@ -109,6 +109,17 @@ def kde_entropy_reference(P, bw):
     return -tot / N
 
 
+def kde_entropy_reference_np(P, bw):
+    """the same definition for samples of any size: exact pairwise coordinate differences, row-wise log-sum-exp"""
+    P = np.asarray(P, dtype=float)
+    N, d = P.shape
+    h = bandwidth_value(bw, N, d)
+    lognorm = math.log(N) + 0.5 * d * math.log(2 * math.pi) + d * math.log(h)
+    E = -((P[:, None, :] - P[None, :, :]) ** 2).sum(axis=2) / (2 * h * h)
+    mx = E.max(axis=1)
+    return float(-(np.mean(mx + np.log(np.exp(E - mx[:, None]).sum(axis=1))) - lognorm))
+
+
 def kde_reference(which, X, Y, Z, bw):
     H = kde_entropy_reference
     if which == "entropy":
@@ -244,6 +255,9 @@ def run(chk):
         metric = str(rng.choice(list(METRICS)))
         M = rng.normal(size=(kx + ky + kz, kx + ky + kz)) * 10.0 ** rng.uniform(-2, 2)
         W = rng.normal(size=(N, kx + ky + kz)) @ M + rng.normal(size=(1, kx + ky + kz)) * 5
+        if t % 7 == 3:                    # the sample sits far from the origin: offsets 1e4 .. 1e7 x its spread (distances are about differences)
+            W = W + np.sign(rng.normal(size=(1, kx + ky + kz))) * np.abs(W).max() * 10.0 ** rng.uniform(4, 7, (1, kx + ky + kz))
+            chk.count("knn_float.far_from_origin")
         if rng.random() < 0.4:            # columns of very different magnitude (1e-7 .. 1e3)
             W = rng.normal(size=(N, kx + ky + kz)) * 10.0 ** rng.uniform(-7, 3, (1, kx + ky + kz))
             chk.count("knn_float.mixed_scales")
@@ -422,6 +436,24 @@ def run(chk):
                               f"{[b for b, _ in hist]} on the same data; the definition gives {ref}",
                               {"estimator": "kde", "which": which, "bandwidth_history": [b for b, _ in hist], "X": Xf.tolist(),
                                "Y": Yf.tolist(), "Z": Zf.tolist(), "returned": v, "formula": ref})
+    # KDE on samples beyond any internal size threshold (tree approximations, blocks): every kernel must still be summed
+    for t in range(2 if quick else 12):
+        N = int(rng.choice([2001, 2048, 2500])) if t else 2001
+        kx, ky = int(rng.integers(1, 3)), int(rng.integers(1, 3))
+        W_ = rng.normal(size=(N, kx + ky)) @ rng.normal(size=(kx + ky, kx + ky))
+        Xf, Yf = W_[:, :kx], W_[:, kx:]
+        bw = [str(rng.choice(["silverman", "scott"])), float(rng.uniform(0.2, 1.0))][t % 2]
+        which = ["entropy", "mi"][t % 2]
+        v = float(kde_entropy(Xf, bandwidth=bw) if which == "entropy" else kde_mutual_information(Xf, Yf, bandwidth=bw))
+        H = kde_entropy_reference_np
+        ref = H(Xf, bw) if which == "entropy" else H(Xf, bw) + H(Yf, bw) - H(W_, bw)
+        chk.case(key=("kde_large", W_.tobytes(), str(bw), which), nontrivial=True)
+        chk.count("kde_float.N_gt_2000")
+        if not math.isfinite(v) or abs(v - ref) > TOL * max(1.0, abs(ref)):
+            chk.violation("counterexample", f"KDE {which} (bandwidth={bw}, N={N}) returned {v!r}; minus the mean log of the Gaussian-kernel density "
+                          f"at the samples, every kernel summed, is {ref!r}",
+                          {"estimator": "kde", "which": which, "bandwidth": bw, "N": N, "seed_note": "sample regenerated from the check's seed",
+                           "returned": v, "formula": ref})
     chk.rule = ("kNN: N 4..40, block dimensions 1..3, Z present/absent, k in 1..min(10,N-1) with k = N-1 forced in a fifth of the cases, "
                 "metrics euclidean/cityblock/chebyshev, integer grids of range 5 (tie-heavy, often undefined), 50, and dyadic grids 2^-8..2^-20 "
                 "(tie-free in practice), through the two estimator functions, the Z=None path and the dispatcher; the implementation's value "
